@@ -162,3 +162,34 @@ pub fn text_forms(kt: KeyType, bytes: &[u8]) -> Option<Result<(String, String, S
         Some(guarded(|| (e.to_base64(), format!("{e}"), serde_json::to_string(&e).unwrap_or_else(|x| format!("<serialize error {x}>")))))
     })
 }
+
+/// The same string through the other serde_json entry points: owned value, reader, and a JSON
+/// spelling with an escape (so that the deserialiser cannot borrow from the input).
+pub fn parse_json_variants(kt: KeyType, s: &str) -> Vec<(&'static str, LibOut)> {
+    with_key_type!(kt, K => {
+        let conv = |r: Result<Result<Enr<K>, serde_json::Error>, String>| match r {
+            Ok(Ok(e)) => LibOut::Ok(snap(&e), 0),
+            Ok(Err(e)) => LibOut::Err(e.to_string()),
+            Err(p) => LibOut::Panic(p),
+        };
+        let quoted = serde_json::to_string(s).unwrap();
+        let escaped = match s.chars().next() {
+            Some(c) if (c as u32) < 0x10000 => format!("\"\\u{:04x}{}", c as u32, &quoted[1 + serde_json::to_string(&c.to_string()).unwrap().len() - 2..]),
+            _ => quoted.clone(),
+        };
+        vec![
+            ("from_value", conv(guarded(|| serde_json::from_value::<Enr<K>>(serde_json::Value::String(s.to_string()))))),
+            ("from_reader", conv(guarded(|| serde_json::from_reader::<_, Enr<K>>(quoted.as_bytes())))),
+            ("from_str(escaped)", conv(guarded(|| serde_json::from_str::<Enr<K>>(&escaped)))),
+            ("list from_value", {
+                let r = guarded(|| serde_json::from_value::<Vec<Enr<K>>>(serde_json::Value::Array(vec![serde_json::Value::String(s.to_string())])));
+                match r {
+                    Ok(Ok(v)) if v.len() == 1 => LibOut::Ok(snap(&v[0]), 0),
+                    Ok(Ok(_)) => LibOut::Err("wrong length".into()),
+                    Ok(Err(e)) => LibOut::Err(e.to_string()),
+                    Err(p) => LibOut::Panic(p),
+                }
+            }),
+        ]
+    })
+}
